@@ -54,11 +54,15 @@ Theorem C13_init_eq_iterate : forall seed sub off, sub < 2 ^ 64 -> off < 2 ^ 64 
   init seed sub off = draws (sub * 2 ^ 67 + off) (seed_state seed).
 Proof. exact init_eq_iterate. Qed.
 Print Assumptions C13_init_eq_iterate.
+Example C13_init_hyp_ex : 0xffffffffffffffff < 2 ^ 64.
+Proof. reflexivity. Qed.
 
 (** the SplitMix64 seeding never yields the all-zero state (the fixed point of next) *)
 Theorem C13_init_state_nonzero : forall seed, seed < two32 -> xs (seed_state seed) <> xzero.
 Proof. exact init_state_nonzero. Qed.
 Print Assumptions C13_init_state_nonzero.
+Example C13_seed_ex : 12345 < two32.
+Proof. reflexivity. Qed.
 
 (** every non-zero 160-bit state has period exactly 2^160 - 1 under next
     (primitivity certificates + trial-division primality of the 12 prime factors) *)
@@ -66,6 +70,8 @@ Theorem C13_period_full : forall x, wfx x -> x <> xzero ->
   N.iter (2 ^ 160 - 1) next x = x /\ forall d, 0 < d < 2 ^ 160 - 1 -> N.iter d next x <> x.
 Proof. exact period_full. Qed.
 Print Assumptions C13_period_full.
+Example C13_period_hyp_ex : wfx (X 1 0 0 0 0) /\ X 1 0 0 0 0 <> xzero.
+Proof. split; [cbv; repeat split|discriminate]. Qed.
 
 (** reseed_rng: distinct (event, slot) pairs of any slot count S (no 64-bit wrap of
     event*S+slot) get streams whose first 2^67 states are pairwise different:
